@@ -286,7 +286,9 @@ func (cli *Client) EnrollContext(c net.Conn, ctx any) (Conn, error) {
 
 	handedOver = true
 	connOpened := make(chan struct{})
-	ccb := &connWithCallback{c: gc, cb: func() {
+	var regErr error
+	ccb := &connWithCallback{c: gc, cb: func(err error) {
+		regErr = err
 		close(connOpened)
 	}}
 	err = el.poller.Trigger(queue.HighPriority, el.register, ccb)
@@ -295,6 +297,9 @@ func (cli *Client) EnrollContext(c net.Conn, ctx any) (Conn, error) {
 		return nil, err
 	}
 	<-connOpened
+	if regErr != nil {
+		return nil, regErr
+	}
 
 	return gc, nil
 }
